@@ -67,12 +67,12 @@ def ConcretizesFull (σ : Mapper) (preq : PRequest) (req : Request) : Prop :=
   (match preq.context with
    | some (.value kvs) => kvs = req.context
    | none => lookupKV σ "context" = some (.record req.context)
-   | some (.residual kvs) => ∃ n, rinterp n (Expr.subst σ (.record kvs)) = .val (.record req.context))
+   | some (.residual kvs) => ∃ n, rinterp n (Expr.substUnk σ (.record kvs)) = .val (.record req.context))
 
 def AttrCompletes (σ : Mapper) (pv : PartialValue) (v : Value) : Prop :=
   match pv with
   | .value w => w = v
-  | .residual r => ∃ n, rinterp n (r.subst σ) = .val v
+  | .residual r => ∃ n, rinterp n (r.substUnk σ) = .val v
 
 def AttrsComplete (σ : Mapper) : List (String × PartialValue) → List (String × Value) → Prop
   | [], [] => True
